@@ -493,6 +493,34 @@ func (r *propReport) writeEvidence(e *Engine, wall float64) {
 			"bounded_stand_ins":        r.bounded,
 		},
 	}
+	// a check that consists of bounded stand-ins only is an exhaustive exploration of a
+	// stated finite space, not a proof
+	if r.nObl == 0 && len(r.bounded) > 0 {
+		cases, nontriv := 0, 0
+		var rules []string
+		var samples []any
+		allPass := true
+		for _, b := range r.bounded {
+			cases += b.Cases
+			nontriv += b.Nontrivial
+			rules = append(rules, b.Name+": every case within the bound is enumerated and run on the real function ("+b.Bound+"); a case is non-trivial when the test says so (see its BOUNDED-NONTRIVIAL rule)")
+			for _, sm := range b.Samples {
+				samples = append(samples, sm)
+			}
+			allPass = allPass && b.Pass
+		}
+		if allPass && cases > 0 && nontriv >= 2 && len(samples) > 0 {
+			ev["level"] = "exploration"
+			cov := ev["coverage"].(map[string]any)
+			cov["evaluations"] = cases
+			cov["distinct_nontrivial"] = nontriv
+			cov["rule"] = strings.Join(rules, "; ")
+			cov["samples"] = samples
+			cov["exhaustive"] = true
+			cov["explanation"] = "bounded stand-in only (exhaustive within the stated bound, NOT a proof): the function's contract does not discharge"
+			level = "exploration"
+		}
+	}
 	if level == "other" && expl == "" {
 		ev["coverage"].(map[string]any)["explanation"] = "see counts"
 	}
